@@ -252,6 +252,13 @@ def run(chk):
         acs = []
         for k in range(2 if multi else 1):
             ac = gen.gen_aircraft(rng, chk.hist, max_wings=3, N=rng.randint(2, 4), sides=("both", "both", "left", "right"))
+            if built == 0 and k == 0:
+                # a wing chain (outer panel on the tip): storage order, insertion order and the order of the report differ
+                ac = gen.simple_wing_aircraft(N=3, reid=False, sweep=10.0)
+                del ac["wings"]["v_stab"]
+                ac["wings"]["outer"] = {"ID": 4, "side": "both", "is_main": True, "connect_to": {"ID": 1, "location": "tip"}, "semispan": 1.5,
+                                        "chord": [[0.0, 0.8], [1.0, 0.4]], "dihedral": 20.0, "airfoil": "af0", "grid": {"N": 2, "reid_corrections": False},
+                                        "control_surface": {"chord_fraction": 0.3, "control_mixing": {"aileron": 0.5}}}
             st = gen.gen_state(rng, chk.hist)
             if multi:
                 st["position"] = [rng.uniform(-20, 20), k * rng.uniform(12, 30), rng.uniform(-500, -10)]
